@@ -11,241 +11,21 @@ import EudoxiaModel.Proofs.WorldLive
 import EudoxiaModel.Proofs.NaiveLoop
 import EudoxiaModel.Proofs.NaiveMulti
 import EudoxiaModel.Proofs.NaiveExample
-/-! # C08 — shipped schedulers decide admissibly (per-round theorems; the run-to-the-end statement is checked on traces, see DESIGN.md)
+import EudoxiaModel.Proofs.PrioBudget
+import EudoxiaModel.Proofs.PriorityLoop
+import EudoxiaModel.Proofs.PriorityExample
+/-! # C08 — shipped schedulers decide admissibly, and the closed loop of scheduler and executor runs to the end without raising
 
-`partial`: what is proved here is, for every world and queue state, that one round of `priority` / `priority-pool` asks each pool for no more
-CPU and RAM than the pool has free (so `verify_valid_assignment` accepts the round), that every assignment was built by the checked
-`Assignment` constructor (operators PENDING/FAILED with parents satisfied, each assigned once), and that `priority` names only suspendable
-containers.  Naive and overbook: `C17.one_container_per_pool_with_all_free_resources`, `C18.assign_spec`.  Not proved: that the *composition*
-of rounds and executor ticks over a whole run never raises — that statement is false for the shipped code in one mode (known finding D11). -/
+`partial`.  Proved for every world and queue state: one round of `priority` / `priority-pool` asks each pool for no more CPU and RAM than the pool has free
+(so `verify_valid_assignment` accepts the round), every assignment was built by the checked `Assignment` constructor (operators PENDING/FAILED with
+parents satisfied, each assigned once), `priority` names only suspendable containers; the executor raises only at its gates.  Proved over whole runs
+(scheduler and executor in closed loop, any number of ticks, any arrivals): naive in both container modes, overbook (`C18`), and `priority` with
+single-operator containers.  Not proved: whole runs of `priority` with multi-operator containers (where it pre-empts) and of `priority-pool` — for the
+latter the statement is false for the shipped code in single-operator mode (known finding D11).  Helper lemmas: `Proofs/PrioBudget.lean`,
+`Proofs/PriorityLoop.lean`, `Proofs/Naive*.lean`, `Proofs/Progress.lean`. -/
 namespace Eudoxia.C08
 open Eudoxia Eudoxia.Prio OpState Extracted
 
-def NonNegS (sn : List Snap) : Prop := ∀ s ∈ sn, 0 ≤ s.availC ∧ 0 ≤ s.availR
-
-theorem getD_nonneg {sn : List Snap} (h : NonNegS sn) (p : Nat) : 0 ≤ (sn.getD p default).availC ∧ 0 ≤ (sn.getD p default).availR := by
-  rw [List.getD_eq_getElem?_getD]
-  cases hg : sn[p]? with
-  | none => simp; decide
-  | some s => simp; exact h s (List.mem_of_getElem? hg)
-
-theorem snapSub_getD (sn : List Snap) (k p cpu ram : Nat) (hk : k < sn.length) :
-    (snapSub sn k cpu ram).getD p default =
-      if p = k then { sn.getD k default with availC := (sn.getD k default).availC - cpu, availR := (sn.getD k default).availR - ram }
-      else sn.getD p default := by
-  unfold snapSub
-  rw [List.getD_eq_getElem?_getD, List.getElem?_set]
-  by_cases e : k = p
-  · subst e; simp [hk]
-  · simp [e, List.getD_eq_getElem?_getD]
-    intro h; exact absurd h.symm e
-
-theorem snapSub_nonneg (sn : List Snap) (k cpu ram : Nat) (h : NonNegS sn)
-    (hc : (cpu : Int) ≤ (sn.getD k default).availC) (hr : (ram : Int) ≤ (sn.getD k default).availR) : NonNegS (snapSub sn k cpu ram) := by
-  intro s hs
-  unfold snapSub at hs
-  rcases List.mem_or_eq_of_mem_set hs with hs | rfl
-  · exact h s hs
-  · simp only; omega
-
-theorem cpuReq_append (a b : List Asg) : cpuReq (a ++ b) = cpuReq a + cpuReq b := by simp [cpuReq]
-theorem ramReq_append (a b : List Asg) : ramReq (a ++ b) = ramReq a + ramReq b := by simp [ramReq]
-
-def on (as : List Asg) (p : Nat) : List Asg := as.filter (·.pool == p)
-
-theorem on_cons (a : Asg) (as : List Asg) (p : Nat) : on (a :: as) p = if a.pool = p then a :: on as p else on as p := by
-  unfold on; rw [List.filter_cons]; by_cases h : a.pool = p <;> simp [h]
-
-theorem on_append (a b : List Asg) (p : Nat) : on (a ++ b) p = on a p ++ on b p := by simp [on]
-
-/-- what the scheduler still shows free on pool `p` plus what it has handed out there equals what was free before -/
-def Budget (sn sn' : List Snap) (new : List Asg) : Prop :=
-  ∀ p, (sn'.getD p default).availC + cpuReq (on new p) = (sn.getD p default).availC ∧
-       (sn'.getD p default).availR + ramReq (on new p) = (sn.getD p default).availR
-
-theorem budget_refl (sn : List Snap) : Budget sn sn [] := by intro p; simp [on, cpuReq, ramReq]
-
-theorem budget_step {sn sn' : List Snap} {new : List Asg} {k cpu ram : Nat} (a : Asg) (hk : k < sn.length)
-    (ha : a.pool = k ∧ a.cpu = cpu ∧ a.ram = ram) (h : Budget (snapSub sn k cpu ram) sn' new) : Budget sn sn' (a :: new) := by
-  intro p
-  obtain ⟨h1, h2⟩ := h p
-  rw [snapSub_getD _ _ _ _ _ hk] at h1 h2
-  rw [on_cons, ha.1]
-  by_cases e : k = p
-  · subst e
-    simp only [↓reduceIte] at h1 h2 ⊢
-    simp only [cpuReq, ramReq, List.map_cons, List.sum_cons, ha.2.1, ha.2.2] at *
-    omega
-  · have e' : ¬ p = k := fun x => e x.symm
-    simp only [e, e', ↓reduceIte] at h1 h2 ⊢
-    exact ⟨h1, h2⟩
-
-/-! ### sizes fit -/
-
-theorem newSize_fits (q : Nat) (s : Snap) (h0 : 0 < s.availC) (h1 : 0 < s.availR) :
-    ((newSize q s).1 : Int) ≤ s.availC ∧ ((newSize q s).2 : Int) ≤ s.availR := by
-  simp only [newSize]
-  split
-  · refine ⟨?_, ?_⟩ <;> simp only <;> omega
-  · rename_i h
-    simp only [Bool.or_eq_true, decide_eq_true_eq, not_or, Int.not_le] at h
-    exact ⟨Int.le_of_lt h.1, Int.le_of_lt h.2⟩
-
-theorem fits_of_eq {q : Nat} {s : Snap} {jc jr : Nat} (h : some (newSize q s) = some (jc, jr))
-    (hn : ((newSize q s).1 : Int) ≤ s.availC ∧ ((newSize q s).2 : Int) ≤ s.availR) :
-    (jc : Int) ≤ s.availC ∧ (jr : Int) ≤ s.availR := by
-  have e := Option.some.inj h
-  have e1 : jc = (newSize q s).1 := by rw [e]
-  have e2 : jr = (newSize q s).2 := by rw [e]
-  subst e1 e2
-  exact hn
-
-theorem prSize_fits (q : Nat) (s : Snap) (job : Job) (jc jr : Nat) (h0 : 0 < s.availC) (h1 : 0 < s.availR)
-    (h : prSize q s job = some (jc, jr)) : (jc : Int) ≤ s.availC ∧ (jr : Int) ≤ s.availR := by
-  unfold prSize at h
-  have hn := newSize_fits q s h0 h1
-  split at h
-  · split at h
-    · split at h
-      · cases h
-      · rename_i hfit
-        split at h
-        · cases h
-        · cases h
-          simp only [Bool.or_eq_true, decide_eq_true_eq, not_or, Int.not_lt] at hfit
-          exact hfit
-    · split at h
-      · rename_i hfit
-        cases h
-        simp only [Bool.and_eq_true, decide_eq_true_eq] at hfit
-        omega
-      · exact fits_of_eq h hn
-  · exact fits_of_eq h hn
-
-theorem ppSize_fits (q : Nat) (s : Snap) (job : Job) (jc jr : Nat) (h0 : 0 < s.availC) (h1 : 0 < s.availR)
-    (h : ppSize q s job = some (jc, jr)) : (jc : Int) ≤ s.availC ∧ (jr : Int) ≤ s.availR := by
-  unfold ppSize at h
-  have hn := newSize_fits q s h0 h1
-  split at h
-  · split at h
-    · split at h
-      · cases h
-      · split at h
-        · cases h; exact ⟨by omega, by omega⟩
-        · rename_i hfit
-          cases h
-          simp only [Bool.or_eq_true, decide_eq_true_eq, not_or, Int.not_le] at hfit
-          omega
-    · split at h
-      · rename_i hfit
-        simp only [Bool.and_eq_true, decide_eq_true_eq] at hfit
-        split at h
-        · cases h; exact ⟨by omega, by omega⟩
-        · cases h; exact hfit
-      · exact fits_of_eq h hn
-  · exact fits_of_eq h hn
-
-/-! ### one queue never asks a pool for more than it has -/
-
-theorem prQueue_budget (q : Nat) : ∀ (jobs : List Job) (w : World) (sn : List Snap) (k : Nat) (acc : List Asg)
-    (w' : World) (sn' : List Snap) (k' : Nat) (out : List Asg),
-    prQueue q w jobs sn k acc = .ok (w', sn', k', out) → NonNegS sn →
-    NonNegS sn' ∧ sn'.length = sn.length ∧ ∃ new, out = acc ++ new ∧ Budget sn sn' new := by
-  intro jobs
-  induction jobs with
-  | nil =>
-    intro w sn k acc w' sn' k' out h hn
-    simp [prQueue] at h
-    obtain ⟨_, rfl, _, rfl⟩ := h
-    exact ⟨hn, rfl, [], by simp, budget_refl _⟩
-  | cons job rest ih =>
-    intro w sn k acc w' sn' k' out h hn
-    unfold prQueue at h
-    split at h
-    · simp at h
-      obtain ⟨_, rfl, _, rfl⟩ := h
-      exact ⟨hn, rfl, [], by simp, budget_refl _⟩
-    · rename_i pool hb
-      obtain ⟨hp, hopen, _⟩ := C12.bestPool_spec sn pool hb
-      split at h
-      · exact ih _ _ _ _ _ _ _ _ h hn
-      · rename_i jc jr hsz
-        split at h
-        · cases h
-        · rename_i w1 a1 hmk
-          obtain ⟨ea, _⟩ := mkA_ok hmk
-          obtain ⟨fc, fr⟩ := prSize_fits q _ job jc jr hopen.1 hopen.2 hsz
-          obtain ⟨n1, n2, new, e, b⟩ := ih _ _ _ _ _ _ _ _ h (snapSub_nonneg sn pool jc jr hn fc fr)
-          refine ⟨n1, by rw [n2]; simp [snapSub], a1 :: new, by simp [e], budget_step a1 hp (by rw [ea]; exact ⟨rfl, rfl, rfl⟩) b⟩
-
-theorem ppQueue_budget (q pool : Nat) : ∀ (jobs : List Job) (w : World) (sn : List Snap) (k : Nat) (acc : List Asg)
-    (w' : World) (sn' : List Snap) (k' : Nat) (out : List Asg),
-    ppQueue q pool w jobs sn k acc = .ok (w', sn', k', out) → NonNegS sn →
-    NonNegS sn' ∧ sn'.length = sn.length ∧ ∃ new, out = acc ++ new ∧ Budget sn sn' new := by
-  intro jobs
-  induction jobs with
-  | nil =>
-    intro w sn k acc w' sn' k' out h hn
-    simp [ppQueue] at h
-    obtain ⟨_, rfl, _, rfl⟩ := h
-    exact ⟨hn, rfl, [], by simp, budget_refl _⟩
-  | cons job rest ih =>
-    intro w sn k acc w' sn' k' out h hn
-    unfold ppQueue at h
-    split at h
-    · split at h
-      · simp at h
-        obtain ⟨_, rfl, _, rfl⟩ := h
-        exact ⟨hn, rfl, [], by simp, budget_refl _⟩
-      · cases h
-    · rename_i hz
-      simp only [Bool.or_eq_true, beq_iff_eq, not_or] at hz
-      have hnn := getD_nonneg hn pool
-      have hp : pool < sn.length := by
-        apply Decidable.byContradiction
-        intro hge
-        have : sn.getD pool default = default := by
-          rw [List.getD_eq_getElem?_getD, List.getElem?_eq_none (by omega)]; rfl
-        rw [this] at hz
-        exact hz.1 rfl
-      split at h
-      · exact ih _ _ _ _ _ _ _ _ h hn
-      · rename_i jc jr hsz
-        split at h
-        · cases h
-        · rename_i w1 a1 hmk
-          obtain ⟨ea, _⟩ := mkA_ok hmk
-          obtain ⟨fc, fr⟩ := ppSize_fits q _ job jc jr (by omega) (by omega) hsz
-          obtain ⟨n1, n2, new, e, b⟩ := ih _ _ _ _ _ _ _ _ h (snapSub_nonneg sn pool jc jr hn fc fr)
-          refine ⟨n1, by rw [n2]; simp [snapSub], a1 :: new, by simp [e], budget_step a1 hp (by rw [ea]; exact ⟨rfl, rfl, rfl⟩) b⟩
-
-theorem budget_trans {a b c : List Snap} {x y : List Asg} (h1 : Budget a b x) (h2 : Budget b c y) : Budget a c (x ++ y) := by
-  intro p
-  obtain ⟨p1, p2⟩ := h1 p
-  obtain ⟨q1, q2⟩ := h2 p
-  rw [on_append, cpuReq_append, ramReq_append]
-  omega
-
-theorem snaps_getD (w : World) (p : Nat) (hp : p < w.pools.length) :
-    ((snaps w).getD p default).availC = (w.pools.getD p default).availC ∧ ((snaps w).getD p default).availR = (w.pools.getD p default).availR := by
-  unfold snaps
-  rw [List.getD_eq_getElem?_getD, List.getD_eq_getElem?_getD, List.getElem?_map]
-  rw [List.getElem?_eq_getElem hp]
-  simp
-
-/-- what three chained queue runs hand out stays within what each pool had free, so the executor's `verify_valid_assignment` accepts it -/
-theorem accepted_of_budget (w : World) (snEnd : List Snap) (asgs : List Asg) (hb : Budget (snaps w) snEnd asgs) (hn : NonNegS snEnd)
-    (p : Nat) (hp : p < w.pools.length) : verifyAssignments w.cfg (w.pools.getD p default) (on asgs p) = .ok () := by
-  obtain ⟨b1, b2⟩ := hb p
-  obtain ⟨s1, s2⟩ := snaps_getD w p hp
-  obtain ⟨n1, n2⟩ := getD_nonneg hn p
-  unfold verifyAssignments
-  rw [if_neg (by omega)]
-  split
-  · rename_i h
-    simp only [Bool.and_eq_true, Bool.not_eq_true', decide_eq_true_eq] at h
-    omega
-  · rfl
 
 /-- **priority never oversells**: whatever the queues hold, the assignments of one round pass the executor's capacity check on every pool,
 provided no pool's free CPU/RAM is negative when the round starts (true in every reachable world: `reach_good`). -/
@@ -323,59 +103,6 @@ theorem built_chain_spec {w w' : World} {as : List Asg} (h : Built w as w') :
     (∀ o ∈ as.flatMap (·.ops), w.store.stOf o ∈ assignable ∧ w'.store.stOf o = assigned) ∧
     (∀ o, o ∉ as.flatMap (·.ops) → w'.store.stOf o = w.store.stOf o) := built_spec h
 
-theorem prQueue_built (q : Nat) : ∀ (jobs : List Job) (w : World) (sn : List Snap) (k : Nat) (acc : List Asg)
-    (w' : World) (sn' : List Snap) (k' : Nat) (out : List Asg),
-    prQueue q w jobs sn k acc = .ok (w', sn', k', out) → ∃ new, out = acc ++ new ∧ Built w new w' := by
-  intro jobs
-  induction jobs with
-  | nil =>
-    intro w sn k acc w' sn' k' out h
-    simp [prQueue] at h
-    obtain ⟨rfl, _, _, rfl⟩ := h
-    exact ⟨[], by simp, .nil _⟩
-  | cons job rest ih =>
-    intro w sn k acc w' sn' k' out h
-    unfold prQueue at h
-    split at h
-    · simp at h
-      obtain ⟨rfl, _, _, rfl⟩ := h
-      exact ⟨[], by simp, .nil _⟩
-    · split at h
-      · exact ih _ _ _ _ _ _ _ _ h
-      · split at h
-        · cases h
-        · rename_i w1 a1 hmk
-          obtain ⟨_, hm⟩ := mkA_ok hmk
-          obtain ⟨new, e, b⟩ := ih _ _ _ _ _ _ _ _ h
-          exact ⟨a1 :: new, by simp [e], .cons hm b⟩
-
-theorem ppQueue_built (q pool : Nat) : ∀ (jobs : List Job) (w : World) (sn : List Snap) (k : Nat) (acc : List Asg)
-    (w' : World) (sn' : List Snap) (k' : Nat) (out : List Asg),
-    ppQueue q pool w jobs sn k acc = .ok (w', sn', k', out) → ∃ new, out = acc ++ new ∧ Built w new w' := by
-  intro jobs
-  induction jobs with
-  | nil =>
-    intro w sn k acc w' sn' k' out h
-    simp [ppQueue] at h
-    obtain ⟨rfl, _, _, rfl⟩ := h
-    exact ⟨[], by simp, .nil _⟩
-  | cons job rest ih =>
-    intro w sn k acc w' sn' k' out h
-    unfold ppQueue at h
-    split at h
-    · split at h
-      · simp at h
-        obtain ⟨rfl, _, _, rfl⟩ := h
-        exact ⟨[], by simp, .nil _⟩
-      · cases h
-    · split at h
-      · exact ih _ _ _ _ _ _ _ _ h
-      · split at h
-        · cases h
-        · rename_i w1 a1 hmk
-          obtain ⟨_, hm⟩ := mkA_ok hmk
-          obtain ⟨new, e, b⟩ := ih _ _ _ _ _ _ _ _ h
-          exact ⟨a1 :: new, by simp [e], .cons hm b⟩
 
 /-- **priority: a round's assignments are a chain of accepted constructions from the world the round started in** (hence `built_spec`) -/
 theorem priority_round_built (w w' : World) (st st' : St) (res : List Res) (newP : List Nat) (dec : Decision)
@@ -551,6 +278,32 @@ theorem naive_multi_operator_run_never_raises (arrivals : List (List Nat)) (w : 
 theorem whole_run_theorems_apply_to_a_concrete_world (arrivals : List (List Nat)) :
     (∃ out, Naive.loop (NaiveExample.world false) {} [] arrivals = .ok out) ∧ (∃ out, Naive.loopM true (NaiveExample.world true) {} [] arrivals = .ok out) :=
   NaiveExample.runs arrivals
+
+/-- **the whole run, `priority` with single-operator containers.**  From a world that satisfies `Prio.PRInv` (ready pools without write-outs, well-formed
+pipelines, no memory overcommit, positive RAM quantum; queues holding distinct ready operators, one per job, with positive retry figures; every container and
+every pending result for one operator with a positive allocation) the priority scheduler and the executor run to the last tick without raising, for every
+sequence of arrival batches in which the pipelines arriving together are distinct.  With one operator per container nothing is ever suspendable, so the
+proof also shows that the pre-emption machinery stays idle in this mode.  (Multi-operator mode, where `priority` does suspend, is not covered: PARTIAL.) -/
+theorem priority_single_operator_run_never_raises (arrivals : List (List Nat)) (w : World) (st : Prio.St) (res : List Res)
+    (hn : ∀ newP ∈ arrivals, newP.Nodup) (inv : Prio.PRInv w st res) : ∃ out, Prio.loop w st res arrivals = .ok out :=
+  Prio.run_single_never_raises arrivals w st res hn inv
+
+/-- **one round of `priority` with single-operator containers never raises**: it suspends nothing, every assignment goes through the checked constructor,
+is for one ready operator on an existing pool, the executor's capacity check accepts the batch of every pool, and the queues it leaves hold distinct ready
+operators again -/
+theorem priority_single_operator_round_never_raises (w : World) (st : Prio.St) (results : List Res) (newP : List Nat) (hm : w.cfg.multiOp = false) (hq : 0 < w.cfg.q)
+    (wf : w.WFP) (hs : w.SegsOK) (hpid : w.PidOK) (hj : Prio.JobsOK w st.jobs) (hsu : st.susp = []) (hns : w.NoSusp) (hnd : newP.Nodup)
+    (hres : ∀ r ∈ results, 0 < r.cpu ∧ 0 < r.ram) (hnn : ∀ p ∈ w.pools, 0 ≤ p.availC ∧ 0 ≤ p.availR)
+    (hcs : ∀ p ∈ w.pools, ∀ c ∈ p.active, c.canSuspend = false) :
+    ∃ w' st' asgs, prRound w st results newP = .ok (w', st', { sus := [], asgs := asgs }) ∧ Built w asgs w' ∧ Prio.JobsOK w' st'.jobs ∧ st'.susp = [] ∧
+      (∀ a ∈ asgs, a.pool < w.pools.length ∧ ∃ o, a.ops = [o] ∧ Prio.OpOK w o) ∧
+      (∀ p, p < w.pools.length → verifyAssignments w.cfg (w.pools.getD p default) (asgs.filter (·.pool == p)) = .ok ()) :=
+  Prio.prRound_single w st results newP hm hq wf hs hpid hj hsu hns hnd hres hnn hcs
+
+/-- the hypotheses of the priority whole-run theorem are met by a concrete world (the diamond DAG on two pools, single-operator containers): non-vacuity -/
+theorem priority_theorem_applies_to_a_concrete_world (arrivals : List (List Nat)) (h : ∀ newP ∈ arrivals, newP.Nodup) :
+    ∃ out, Prio.loop (NaiveExample.world false) {} [] arrivals = .ok out :=
+  PriorityExample.runs arrivals h
 
 /-- a fresh pool is ready (non-vacuity of the hypotheses above) -/
 theorem fresh_pool_ready (cfg : Cfg) (w : Store) (cpus ram : Nat) : PoolReadyF cfg w (Pool.fresh cpus ram) :=
